@@ -610,6 +610,44 @@ Definition universal (x : string) : option value :=
 
 Definition predeclared_names : list string := ["trace"].
 
+(* ASCII string helpers for the few string methods the generator uses *)
+Definition is_lower (c : ascii) : bool := let n := nat_of_ascii c in (Nat.leb 97 n && Nat.leb n 122)%bool.
+Definition is_upper (c : ascii) : bool := let n := nat_of_ascii c in (Nat.leb 65 n && Nat.leb n 90)%bool.
+Definition is_ascii (c : ascii) : bool := Nat.leb (nat_of_ascii c) 127.
+Definition to_upper (c : ascii) : ascii := if is_lower c then ascii_of_nat (nat_of_ascii c - 32) else c.
+Definition to_lower (c : ascii) : ascii := if is_upper c then ascii_of_nat (nat_of_ascii c + 32) else c.
+Definition is_space (c : ascii) : bool :=
+  let n := nat_of_ascii c in (Nat.eqb n 32 || (Nat.leb 9 n && Nat.leb n 13))%bool.
+Fixpoint smap (f : ascii -> ascii) (s : string) : string :=
+  match s with EmptyString => EmptyString | String c r => String (f c) (smap f r) end.
+Fixpoint all_ascii (s : string) : bool :=
+  match s with EmptyString => true | String c r => is_ascii c && all_ascii r end.
+Fixpoint lstrip (s : string) : string :=
+  match s with String c r => if is_space c then lstrip r else s | EmptyString => s end.
+Fixpoint srev (s acc : string) : string :=
+  match s with EmptyString => acc | String c r => srev r (String c acc) end.
+Definition strip (s : string) : string := srev (lstrip (srev (lstrip s) "")) "".
+Fixpoint title_from (prev_alpha : bool) (s : string) : string :=
+  match s with
+  | EmptyString => EmptyString
+  | String c r =>
+      let alpha := (is_lower c || is_upper c)%bool in
+      String (if alpha then (if prev_alpha then to_lower c else to_upper c) else c) (title_from alpha r)
+  end.
+
+(* stable insertion sort by `<`; an incomparable pair is an error *)
+Fixpoint sort_insert (w : world) (x : value) (l : list value) : pres (list value) :=
+  match l with
+  | [] => POk [x]
+  | y :: r => plet lt <- vcmp deep_fuel w Lt y x;
+              if (lt : bool) then plet r' <- sort_insert w x r; POk (y :: r') else POk (x :: y :: r)
+  end.
+Fixpoint sort_values (w : world) (l : list value) : pres (list value) :=
+  match l with
+  | [] => POk []
+  | x :: r => plet r' <- sort_values w r; sort_insert w x r'
+  end.
+
 Section Builtins.
   Variable fname : nat -> string.
 
@@ -681,9 +719,26 @@ Section Builtins.
         nokw (match args with
               | [v] => match repr fname deep_fuel w v with Some s => POk (VStr s, w) | None => PUnsup "render" end
               | _ => PErr end)
+      else if String.eqb name "sorted" then
+        match kwargs with
+        | _ :: _ => PUnsup "sorted-kwargs"
+        | [] => match args with
+                | [v] => plet vs <- elements v w;
+                         (* the real sort compares from the right; a stable sort by < gives the same result *)
+                         plet r <- sort_values w vs; POk (alloc_list r w)
+                | _ => PErr end
+        end
       else PUnsup ("builtin:" ++ name)
     | Some r =>
       match r with
+      | VStr s =>
+          if negb (all_ascii s) then PUnsup "non-ascii" else
+          if String.eqb name "upper" then nokw (match args with [] => POk (VStr (smap to_upper s), w) | _ => PErr end)
+          else if String.eqb name "lower" then nokw (match args with [] => POk (VStr (smap to_lower s), w) | _ => PErr end)
+          else if String.eqb name "title" then nokw (match args with [] => POk (VStr (title_from false s), w) | _ => PErr end)
+          else if String.eqb name "strip" then
+            nokw (match args with [] => POk (VStr (strip s), w) | [_] => PUnsup "strip-chars" | _ => PErr end)
+          else PUnsup ("method:" ++ name)
       | VRef a =>
         match get_obj w a with
         | Some (OList vs n) =>
@@ -812,6 +867,14 @@ Definition bind_args (ps : list param) (defaults : list value) (args : list valu
   end.
 
 (* ---------------------------------------------------------------- shared small definitions *)
+Fixpoint strs_eqb (a b : list string) : bool :=
+  match a, b with
+  | [], [] => true
+  | x :: a, y :: b => String.eqb x y && strs_eqb a b
+  | _, _ => false
+  end.
+
+
 (* the first n slots of a fresh locals array: the given initial values, then unbound *)
 Fixpoint pad_init (n : nat) (init : list (option value)) : list (option value) :=
   match n with
